@@ -215,7 +215,20 @@ def f_other_order(delta, E, baseline=0, contact_point=0):
     return out + baseline
 
 
+def f_keyword_only(delta, E, *, contact_point=0, baseline=0):
+    """parameters after a bare `*` (keyword-only)"""
+    root = contact_point - delta
+    out = np.zeros_like(delta)
+    out[root > 0] = E * root[root > 0] ** 1.5
+    return out + baseline
+
+
 def signature_order_cases(run):
+    for nm, fn in (("nv_order", f_other_order), ("nv_kwonly", f_keyword_only)):
+        _signature_cases(run, nm, fn)
+
+
+def _signature_cases(run, nm, f_other_order):
     """the wrappers hand the parameters to the user's function BY NAME: a
     function whose signature lists them in another order than parameter_keys
     (only a warning at registration) is evaluated correctly"""
@@ -223,7 +236,12 @@ def signature_order_cases(run):
     from nanite.model.residuals import compute_contact_point_weights as cw
     with warnings.catch_warnings():
         warnings.simplefilter("ignore")
-        md = model.register_model(make_module("nv_order", f_other_order))
+        try:
+            md = model.register_model(make_module(nm, f_other_order))
+        except BaseException as e:
+            run.case({"signature": nm, "refused": type(e).__name__},
+                     kind="signature-refused")
+            return
     try:
         for orient in ("desc", "asc"):
             x = np.linspace(1e-6, -1e-6, 11)
@@ -234,8 +252,9 @@ def signature_order_cases(run):
             p["E"].set(value=2.5)
             p["contact_point"].set(value=2e-7)
             p["baseline"].set(value=3e-10)
-            run.case({"signature-order": orient}, kind="signature-order")
-            key = f"signature-order:{orient}"
+            run.case({"signature-order": orient, "function": nm},
+                     kind="signature-order")
+            key = f"signature-order:{nm}:{orient}"
             try:
                 out = np.asarray(md.model(p, x))
                 res = np.asarray(md.residual(p, x, y, 5e-7))
